@@ -236,7 +236,7 @@ func gramParse(ss []sym) (res gramResult) {
 	switch {
 	case s == nil:
 		if len(g.pending) > 0 {
-			g.dontcare("a here-document operator with no newline after the command line (end of input)")
+			g.fail("here-document delimited by end of input")
 		}
 	case g.isNL(s):
 		g.newline()
@@ -272,7 +272,6 @@ func (g *gram) list() ast.List {
 	for {
 		s := g.peek()
 		if g.isOp(s, ";") || g.isOp(s, "&") {
-			g.res.sepAt[g.i] = s.op == ";"
 			g.next()
 			l[len(l)-1].Sep = s.op
 			n := g.peek()
@@ -540,6 +539,7 @@ func (g *gram) compound(s *sym) *ast.Cmd {
 		switch {
 		case g.isRes(t, "do"):
 		case g.isOp(t, ";"):
+			g.res.sepAt[g.i] = true
 			g.next()
 			x.Semicolon = semi
 			g.linebreak()
@@ -563,6 +563,7 @@ func (g *gram) compound(s *sym) *ast.Cmd {
 				t := g.peek()
 				switch {
 				case g.isOp(t, ";"):
+					g.res.sepAt[g.i] = true
 					g.next()
 					x.Semicolon = semi
 					g.linebreak()
@@ -685,6 +686,9 @@ func (g *gram) simple() *ast.Cmd {
 			c.Redirs = append(c.Redirs, g.redir())
 			n++
 			continue
+		}
+		if s != nil && s.kind == kWord && !isASCII(s.text) && strings.Contains(s.text, "=") {
+			g.dontcare("name=value with a non-ASCII name (XBD Name is limited to the portable character set; go.sh accepts letters)")
 		}
 		if name, ok := isAssignSym(s); ok {
 			g.next()
